@@ -66,13 +66,7 @@ func verifHandout(policyName string, nannounce int, nagents int, checkSelf bool)
 	verif.Assert("policy-exists", err == nil)
 	ps := peerstore.NewLocalStore(peerstore.LocalConfig{TTL: time.Hour}, clock.NewMock())
 	defer ps.Close()
-	s := &Server{
-		config:      Config{PeerHandoutLimit: limit, AnnounceInterval: time.Second},
-		stats:       tally.NoopScope,
-		peerStore:   ps,
-		originStore: origins,
-		policy:      policy,
-	}
+	s := New(Config{PeerHandoutLimit: limit, AnnounceInterval: time.Second}, tally.NoopScope, policy, ps, origins, nil)
 	d, _ := core.NewSHA256DigestFromHex("e3b0c44298fc1c149afbf4c8996fb92427ae41e4649b934ca495991b7852b855")
 	h := core.InfoHash{7}
 	verif.Note("agents are interchangeable: the i-th announce comes from one of the first i+1 agents")
